@@ -407,7 +407,8 @@ Qed.
 Definition link_ok (s : state) (x : nat) : Prop :=
   (forall m, In x (glay s m) -> pmux s x = None /\ pmsg s x = Some m /\ memb x (gsigs s m) = true)
   /\ (forall u g, In x (gget s u g) ->
-        pmux s x = Some u /\ memb x (usigs s u) = true /\ exists gs, groups_of s u x = Some gs /\ In g gs).
+        pmux s x = Some u /\ exists gs, groups_of s u x = Some gs /\ In g gs)
+  /\ (forall u gs, pmux s x = Some u -> groups_of s u x = Some gs -> NoDup gs).
 
 (* every signal behind x in a group holding x is held by that group only (excludes D35) *)
 Definition single_followers (s : state) (x : nat) : Prop :=
@@ -1196,4 +1197,450 @@ Proof.
       * apply (proj1 (dedup_spec (g0 :: gr) [])).
       * intros g Hg. apply (Hfacts g Hg).
       * intros g Hg. apply (Hfacts g Hg).
+Qed.
+
+(* --- multiplexer: shift ------------------------------------------------------------------------- *)
+
+Lemma inv_mux_shift : forall (left : bool) s u x a, InvA s ->
+  ok_op s (if left then OMuxShiftL u x a else OMuxShiftR u x a) ->
+  InvA (fst (step_mux_shift left s u x a)).
+Proof.
+  intros left s u x a H Hop. unfold step_mux_shift.
+  destruct (ugids s u x) as [ids|] eqn:Eids; [|exact H].
+  destruct ids as [|g [|g2 r]]; [exact H| |exact H].
+  assert (Huniq : forall g', In x (gget s u g') -> g' = Z.to_nat g).
+  { destruct left; cbn [ok_op] in Hop; eapply Hop; eauto. }
+  set (L0 := LG u (Z.to_nat g)).
+  assert (Hone : forall L, In x (lay s L) -> In x (lay s L0) -> L = L0).
+  { intros L HL H0. pose proof (a_excl s H L0 L x H0 HL) as E. destruct L as [m|u' g']; cbn in E; [contradiction|].
+    subst u'. unfold L0. f_equal. apply Huniq. exact HL. }
+  destruct left.
+  - destruct (do_shift_left (sz s) (rel s) (gget s u (Z.to_nat g)) x a) as [pos d] eqn:E. cbn [fst].
+    assert (Ep : pos = fst (do_shift_left (sz s) (rel s) (gget s u (Z.to_nat g)) x a)) by (rewrite E; reflexivity).
+    apply (InvA_rel_one s L0); [exact H|rewrite Ep; apply ok_shift_left; apply (a_ok s H L0)|].
+    intros y Hy. rewrite Ep in Hy.
+    destruct (Nat.eq_dec y x) as [->|NE]; [|exfalso; apply Hy; apply do_shift_left_frame; exact NE].
+    destruct (in_dec Nat.eq_dec x (gget s u (Z.to_nat g))) as [Hin|Hn]; [|exfalso; apply Hy; rewrite do_shift_left_notin by exact Hn; reflexivity].
+    split; [exact Hin|]. intros L HL. apply Hone; assumption.
+  - destruct (do_shift_right (sz s) (rel s) (mux_gsize s u) (gget s u (Z.to_nat g)) x a) as [pos d] eqn:E. cbn [fst].
+    assert (Ep : pos = fst (do_shift_right (sz s) (rel s) (mux_gsize s u) (gget s u (Z.to_nat g)) x a)) by (rewrite E; reflexivity).
+    apply (InvA_rel_one s L0); [exact H|rewrite Ep; apply ok_shift_right; apply (a_ok s H L0)|].
+    intros y Hy. rewrite Ep in Hy.
+    destruct (Nat.eq_dec y x) as [->|NE]; [|exfalso; apply Hy; apply do_shift_right_frame; exact NE].
+    destruct (in_dec Nat.eq_dec x (gget s u (Z.to_nat g))) as [Hin|Hn]; [|exfalso; apply Hy; rewrite do_shift_right_notin by exact Hn; reflexivity].
+    split; [exact Hin|]. intros L HL. apply Hone; assumption.
+Qed.
+
+(* --- size change of one signal ---------------------------------------------------------------- *)
+
+(* the per-group loop of modifySignalSize on positions only *)
+Fixpoint mg_pos (len : nat -> Z) (gsize : Z) (grp : nat -> list nat) (x : nat) (a : Z) (gs : list nat)
+  (pos : nat -> Z) : (nat -> Z) * option cause :=
+  match gs with
+  | [] => (pos, None)
+  | g :: r =>
+    let '(e, pos') := if 0 <? a then do_grow len pos gsize (grp g) x a else do_shrink len pos (grp g) x (- a) in
+    match e with
+    | Some c => (pos, Some c)
+    | None => mg_pos len gsize grp x a r pos'
+    end
+  end.
+
+Lemma modify_groups_pos : forall gs s u x a,
+  modify_groups s u x a gs =
+  (set_rel s (fst (mg_pos (sz s) (mux_gsize s u) (gget s u) x a gs (rel s))),
+   snd (mg_pos (sz s) (mux_gsize s u) (gget s u) x a gs (rel s))).
+Proof.
+  induction gs as [|g r IH]; intros s u x a; cbn [modify_groups mg_pos].
+  - cbn. destruct s; reflexivity.
+  - destruct (if 0 <? a then do_grow (sz s) (rel s) (mux_gsize s u) (gget s u g) x a
+              else do_shrink (sz s) (rel s) (gget s u g) x (- a)) as [e pos'] eqn:E.
+    destruct e as [c|]; [cbn; destruct s; reflexivity|].
+    rewrite IH. reflexivity.
+Qed.
+
+Section MuxResize.
+  Variable s : state.
+  Variable u x : nat.
+  Variable a : Z.
+  Hypothesis HI : InvA s.
+  Hypothesis Ha : a <> 0.
+  Hypothesis Hnew : 1 <= sz s x + a.
+  Hypothesis Hsingle : single_followers s x.
+  Hypothesis Hshrink : a < 0 -> verify_shrink (sz s) x (- a) = None.
+
+  Let len' := upd (sz s) x (sz s x + a).
+  Let gsz := mux_gsize s u.
+
+  Definition mover (y : nat) : Prop := exists g fs, followers (gget s u g) x = Some fs /\ In y fs.
+
+  Lemma mover_only : forall g fs y, followers (gget s u g) x = Some fs -> In y fs ->
+    forall L, In y (lay s L) -> L = LG u g.
+  Proof.
+    intros g fs y Hf Hy L HL.
+    assert (Hyg : In y (gget s u g)) by (destruct (followers_In _ _ _ Hf) as [_ B]; apply B; exact Hy).
+    pose proof (a_excl s HI (LG u g) L y Hyg HL) as E. destruct L as [m|u' g']; cbn in E; [contradiction|].
+    subst u'. f_equal. eapply Hsingle; eauto.
+  Qed.
+
+  Definition Mixed (p : nat -> Z) (done : list nat) : Prop :=
+    (forall g, In g done -> In x (gget s u g) -> ok p len' 0 gsz (gget s u g))
+    /\ (forall L, ~ (exists g, L = LG u g /\ In g done /\ In x (gget s u g)) -> ok p (sz s) 0 (lsz s L) (lay s L))
+    /\ (forall y, ~ mover y -> p y = rel s y).
+
+  Lemma x_not_mover : ~ mover x.
+  Proof.
+    intros [g [fs [Hf Hx]]]. pose proof (a_ok s HI (LG u g)) as Hok. cbn [lay lsz] in Hok.
+    destruct (ok_split_at _ _ _ _ _ _ _ Hok Hf) as [_ Hn]. contradiction.
+  Qed.
+
+  Lemma mixed_init : Mixed (rel s) [].
+  Proof.
+    split; [intros g []|]. split; [|reflexivity].
+    intros L _. apply (a_ok s HI L).
+  Qed.
+
+  (* one group *)
+  Lemma mixed_step : forall p done g,
+    Mixed p done -> ~ In g done ->
+    let '(e, p') := if 0 <? a then do_grow (sz s) p gsz (gget s u g) x a else do_shrink (sz s) p (gget s u g) x (- a) in
+    (e = None -> Mixed p' (g :: done)) /\ (e <> None -> 0 < a).
+  Proof.
+    intros p done g (M1 & M2 & M3) Hnd.
+    assert (Hokg : ok p (sz s) 0 gsz (gget s u g)).
+    { apply (M2 (LG u g)). intros [g' [E [Hd _]]]. inversion E; subst. contradiction. }
+    assert (Hpx : p x = rel s x) by (apply M3; apply x_not_mover).
+    destruct (in_dec Nat.eq_dec x (gget s u g)) as [Hin|Hn].
+    - (* x is in the group *)
+      destruct (followers (gget s u g) x) as [fs|] eqn:Hf; [|apply followers_None in Hf; contradiction].
+      assert (Hframe_ok : forall p', (forall y, ~ In y fs -> p' y = p y) ->
+                 ok p' len' 0 gsz (gget s u g) -> Mixed p' (g :: done)).
+      { intros p' Hfr Hok'. split; [|split].
+        - intros g' [<-|Hd] Hx'; [exact Hok'|].
+          eapply ok_ext; [|apply (M1 g' Hd Hx')]. intros t Ht. split; [|reflexivity]. apply Hfr.
+          intros Hfs. pose proof (mover_only g fs t Hf Hfs (LG u g') Ht) as E. inversion E; subst. contradiction.
+        - intros L HL. assert (HL' : ~ (exists g', L = LG u g' /\ In g' done /\ In x (gget s u g'))).
+          { intros [g' [E [Hd Hx']]]. apply HL. exists g'. split; [exact E|split; [right; exact Hd|exact Hx']]. }
+          eapply ok_ext; [|apply (M2 L HL')]. intros t Ht. split; [|reflexivity]. apply Hfr.
+          intros Hfs. pose proof (mover_only g fs t Hf Hfs L Ht) as E. subst L.
+          apply HL. exists g. split; [reflexivity|split; [left; reflexivity|exact Hin]].
+        - intros y Hy. rewrite Hfr; [apply M3; exact Hy|]. intros Hfs. apply Hy. exists g, fs. split; assumption. }
+      destruct (Z.ltb_spec 0 a) as [Hpos|Hneg].
+      + (* grow *)
+        destruct (do_grow (sz s) p gsz (gget s u g) x a) as [e p'] eqn:E.
+        assert (Ee : e = fst (do_grow (sz s) p gsz (gget s u g) x a)) by (rewrite E; reflexivity).
+        assert (Ep : p' = snd (do_grow (sz s) p gsz (gget s u g) x a)) by (rewrite E; reflexivity).
+        split; [|intros _; exact Hpos]. intros ->. symmetry in Ee. apply do_grow_ok_iff in Ee; [|exact Ha].
+        apply Hframe_ok.
+        * intros y Hy. rewrite Ep. apply do_grow_frame. intros fs' Hfs'. rewrite Hf in Hfs'. inversion Hfs'; subst. exact Hy.
+        * rewrite Ep. unfold len'. apply ok_grow; assumption.
+      + (* shrink *)
+        assert (Hlt : a < 0) by lia. specialize (Hshrink Hlt).
+        unfold do_shrink. destruct (Z.eqb_spec (- a) 0); [lia|]. rewrite Hshrink.
+        split; [|intros C; congruence]. intros _.
+        apply Hframe_ok.
+        * intros y Hy. apply shrink_loop_false_frame. intros fs' Hfs'. rewrite Hf in Hfs'. inversion Hfs'; subst. exact Hy.
+        * unfold len'. replace (sz s x + a) with (sz s x - - a) by lia. apply ok_shrink; try assumption; lia.
+    - (* x is not in the group: nothing moves *)
+      assert (Hsame : Mixed p (g :: done)).
+      { split; [|split; [|exact M3]].
+        - intros g' [<-|Hd] Hx'; [contradiction|apply M1; assumption].
+        - intros L HL. apply M2. intros [g' [E [Hd Hx']]]. apply HL. exists g'. split; [exact E|split; [right; exact Hd|exact Hx']]. }
+      destruct (Z.ltb_spec 0 a) as [Hpos|Hneg].
+      + destruct (do_grow (sz s) p gsz (gget s u g) x a) as [e p'] eqn:E.
+        assert (Ep : p' = p).
+        { assert (Ep : p' = snd (do_grow (sz s) p gsz (gget s u g) x a)) by (rewrite E; reflexivity).
+          rewrite Ep. unfold do_grow. destruct (a =? 0); [reflexivity|].
+          destruct (verify_grow (sz s) p gsz (gget s u g) x a); [reflexivity|].
+          apply followers_None in Hn. rewrite Hn. reflexivity. }
+        subst p'. split; [intros _; exact Hsame|intros _; exact Hpos].
+      + assert (Hlt : a < 0) by lia. specialize (Hshrink Hlt).
+        unfold do_shrink. destruct (Z.eqb_spec (- a) 0); [lia|]. rewrite Hshrink.
+        split; [|intros C; congruence]. intros _.
+        assert (E : forall y, shrink_loop p (gget s u g) x (- a) false y = p y).
+        { intros y. apply shrink_loop_false_frame. intros fs Hfs. apply followers_None in Hn. congruence. }
+        destruct Hsame as (S1 & S2 & S3). split; [|split].
+        * intros g' Hd Hx'. eapply ok_ext; [|apply (S1 g' Hd Hx')]. intros t _. split; [apply E|reflexivity].
+        * intros L HL. eapply ok_ext; [|apply (S2 L HL)]. intros t _. split; [apply E|reflexivity].
+        * intros y Hy. rewrite E. apply S3. exact Hy.
+  Qed.
+
+  Lemma mixed_loop : forall gs p done,
+    Mixed p done -> NoDup gs -> (forall g, In g gs -> ~ In g done) ->
+    let '(p', e) := mg_pos (sz s) gsz (gget s u) x a gs p in
+    (e = None -> Mixed p' (rev gs ++ done)) /\ (e <> None -> 0 < a /\ exists done', Mixed p' done').
+  Proof.
+    induction gs as [|g r IH]; intros p done HM Hnd Hdis; cbn [mg_pos].
+    - split; [intros _; exact HM|intros C; congruence].
+    - inversion Hnd as [|? ? Hng Hnd']; subst.
+      pose proof (mixed_step p done g HM (Hdis g (or_introl eq_refl))) as St.
+      destruct (if 0 <? a then do_grow (sz s) p gsz (gget s u g) x a else do_shrink (sz s) p (gget s u g) x (- a)) as [e p1].
+      destruct St as [St1 St2]. destruct e as [c|].
+      + split; [discriminate|]. intros _. split; [apply St2; discriminate|exists done; exact HM].
+      + specialize (St1 eq_refl).
+        assert (Hdis' : forall g', In g' r -> ~ In g' (g :: done)).
+        { intros g' Hg' [<-|Hd]; [contradiction|]. apply (Hdis g' (or_intror Hg')). exact Hd. }
+        pose proof (IH p1 (g :: done) St1 Hnd' Hdis') as R.
+        destruct (mg_pos (sz s) gsz (gget s u) x a r p1) as [p' e].
+        cbn [rev]. rewrite <- app_assoc. cbn [app]. exact R.
+  Qed.
+
+  Lemma classic_mixed : forall L done,
+    (exists g, L = LG u g /\ In g done /\ In x (gget s u g)) \/ ~ (exists g, L = LG u g /\ In g done /\ In x (gget s u g)).
+  Proof.
+    intros [m|u' g] done; [right; intros [g [E _]]; discriminate|].
+    destruct (Nat.eq_dec u' u) as [->|NE]; [|right; intros [g' [E _]]; inversion E; congruence].
+    destruct (in_dec Nat.eq_dec g done) as [Hd|Hd]; [|right; intros [g' [E [Hd' _]]]; inversion E; subst; contradiction].
+    destruct (in_dec Nat.eq_dec x (gget s u g)) as [Hx|Hx]; [|right; intros [g' [E [_ Hx']]]; inversion E; subst; contradiction].
+    left. exists g. auto.
+  Qed.
+
+  (* a Mixed state gives the invariant with the old sizes when the signal grows *)
+  Lemma mixed_old : forall p done, 0 < a -> Mixed p done -> forall L, ok p (sz s) 0 (lsz s L) (lay s L).
+  Proof.
+    intros p done Hpos (M1 & M2 & M3) L.
+    destruct (classic_mixed L done) as [[g [-> [Hd Hx]]]|HL]; [|apply M2; exact HL].
+    eapply ok_len_le; [|apply (M1 g Hd Hx)]. intros t Ht. unfold len'. unfold upd.
+    pose proof (a_size s HI t). destruct (Nat.eqb_spec t x) as [->|NE]; lia.
+  Qed.
+End MuxResize.
+
+Definition ok_all (s : state) (p len : nat -> Z) : Prop := forall L, ok p len 0 (lsz s L) (lay s L).
+
+Lemma ok_all_one : forall s L0 p len',
+  InvA s -> ok p len' 0 (lsz s L0) (lay s L0) ->
+  (forall y, p y <> rel s y -> forall L, In y (lay s L) -> L = L0) ->
+  (forall y, len' y <> sz s y -> forall L, In y (lay s L) -> L = L0) ->
+  ok_all s p len'.
+Proof.
+  intros s L0 p len' H Hok Hp Hl L. destruct (classic_lid L L0) as [->|NE]; [exact Hok|].
+  eapply ok_ext; [|apply (a_ok s H L)]. intros t Ht. split.
+  - destruct (Z.eq_dec (p t) (rel s t)) as [E|NE']; [exact E|]. exfalso. apply NE. eapply Hp; eauto.
+  - destruct (Z.eq_dec (len' t) (sz s t)) as [E|NE']; [exact E|]. exfalso. apply NE. eapply Hl; eauto.
+Qed.
+
+Lemma ok_all_unattached : forall s x n, InvA s -> ~ attached s x -> ok_all s (rel s) (upd (sz s) x n).
+Proof.
+  intros s x n H Hfree L. eapply ok_ext; [|apply (a_ok s H L)]. intros t Ht. split; [reflexivity|].
+  apply upd_other. intros ->. apply Hfree. exists L. exact Ht.
+Qed.
+
+Lemma set_rel_id : forall s, s = set_rel s (rel s).
+Proof. destruct s; reflexivity. Qed.
+
+(* the size of x changes by a: what sig_modify_size leaves behind *)
+Definition modify_post (s : state) (x : nat) (a : Z) (s1 : state) (r : vres) : Prop :=
+  exists p, s1 = set_rel s p
+    /\ (r = VOk -> ok_all s p (upd (sz s) x (sz s x + a)))
+    /\ (r <> VOk -> ok_all s p (sz s)).
+
+Lemma modify_post_same : forall s x a r, InvA s -> (r = VOk -> a = 0 \/ ~ attached s x) -> modify_post s x a s r.
+Proof.
+  intros s x a r H Hr. exists (rel s). split; [apply set_rel_id|]. split.
+  - intros E. destruct (Hr E) as [->|Hfree]; [|apply ok_all_unattached; assumption].
+    intros L. eapply ok_ext; [|apply (a_ok s H L)]. intros t _. split; [reflexivity|].
+    unfold upd. destruct (Nat.eqb_spec t x) as [->|]; [lia|reflexivity].
+  - intros _. exact (a_ok s H).
+Qed.
+
+Lemma modify_post_same' : forall s x a r, InvA s -> (r = VOk -> a = 0 \/ ~ attached s x) -> modify_post s x a (set_rel s (rel s)) r.
+Proof.
+  intros s x a r H Hr. destruct (modify_post_same s x a r H Hr) as [p [E R]].
+  exists (rel s). split; [reflexivity|]. rewrite (set_rel_id s) in E at 1.
+  assert (p = rel s) by (inversion E; reflexivity). subst p. exact R.
+Qed.
+
+Lemma msg_modify_post : forall s m x a, InvA s -> 1 <= sz s x + a ->
+  (forall L, In x (lay s L) -> L = LM m) ->
+  modify_post s x a (fst (msg_modify_size s m x a)) (snd (msg_modify_size s m x a)).
+Proof.
+  intros s m x a H Hnew Honly. unfold msg_modify_size.
+  destruct (Z.eqb_spec a 0) as [->|Ha]; [apply modify_post_same; [exact H|intros _; left; reflexivity]|].
+  destruct (negb (memb x (gsigs s m))); [apply modify_post_same; [exact H|discriminate]|].
+  destruct (in_dec Nat.eq_dec x (glay s m)) as [Hin|Hn].
+  - pose proof (a_ok s H (LM m)) as Hok. cbn [lay lsz] in Hok.
+    destruct (Z.ltb_spec 0 a) as [Hpos|Hneg].
+    + destruct (do_grow (sz s) (rel s) (glsize s m) (glay s m) x a) as [e p] eqn:E.
+      assert (Ee : e = fst (do_grow (sz s) (rel s) (glsize s m) (glay s m) x a)) by (rewrite E; reflexivity).
+      assert (Ep : p = snd (do_grow (sz s) (rel s) (glsize s m) (glay s m) x a)) by (rewrite E; reflexivity).
+      destruct e as [c|]; cbn [fst snd]; [apply modify_post_same; [exact H|discriminate]|].
+      symmetry in Ee. apply do_grow_ok_iff in Ee; [|exact Ha].
+      exists p. split; [reflexivity|]. split; [intros _|intros C; congruence].
+      apply (ok_all_one s (LM m)); [exact H|rewrite Ep; apply ok_grow; assumption| |].
+      * intros y Hy L HL. rewrite Ep in Hy.
+        destruct (followers (glay s m) x) as [fs|] eqn:Hf; [|apply followers_None in Hf; contradiction].
+        destruct (in_dec Nat.eq_dec y fs) as [Hyf|Hyn].
+        -- destruct (followers_In _ _ _ Hf) as [_ B]. eapply msg_only; [exact H|apply B; exact Hyf|exact HL].
+        -- exfalso. apply Hy. apply do_grow_frame. intros fs' E'. assert (fs' = fs) by congruence. subst fs'. exact Hyn.
+      * intros y Hy L HL. destruct (Nat.eq_dec y x) as [E0|NE0]; [subst y; apply Honly; exact HL|].
+        exfalso. apply Hy. apply upd_other. exact NE0.
+    + assert (Hlt : a < 0) by lia. unfold do_shrink. destruct (Z.eqb_spec (- a) 0); [lia|].
+      destruct (verify_shrink (sz s) x (- a)) eqn:Ev; cbn [fst snd]; [apply modify_post_same; [exact H|discriminate]|].
+      exists (shrink_loop (rel s) (glay s m) x (- a) false). split; [reflexivity|]. split; [intros _|intros C; congruence].
+      apply (ok_all_one s (LM m)); [exact H| | |].
+      * replace (sz s x + a) with (sz s x - - a) by lia. apply ok_shrink; try assumption; lia.
+      * intros y Hy L HL.
+        destruct (followers (glay s m) x) as [fs|] eqn:Hf; [|apply followers_None in Hf; contradiction].
+        destruct (in_dec Nat.eq_dec y fs) as [Hyf|Hyn].
+        -- destruct (followers_In _ _ _ Hf) as [_ B]. eapply msg_only; [exact H|apply B; exact Hyf|exact HL].
+        -- exfalso. apply Hy. apply shrink_loop_false_frame. intros fs' E'. assert (fs' = fs) by congruence. subst fs'. exact Hyn.
+      * intros y Hy L HL. destruct (Nat.eq_dec y x) as [E0|NE0]; [subst y; apply Honly; exact HL|].
+        exfalso. apply Hy. apply upd_other. exact NE0.
+  - (* x is registered but not placed: nothing moves *)
+    assert (Hfree : ~ attached s x).
+    { intros [L HL]. pose proof (Honly L HL). subst L. contradiction. }
+    assert (Hnf : followers (glay s m) x = None) by (apply followers_None; exact Hn).
+    destruct (Z.ltb_spec 0 a) as [Hpos|Hneg].
+    + unfold do_grow. destruct (Z.eqb_spec a 0); [lia|].
+      destruct (verify_grow (sz s) (rel s) (glsize s m) (glay s m) x a); cbn [fst snd];
+        [apply modify_post_same; [exact H|discriminate]|].
+      rewrite Hnf. cbn [fst snd]. apply modify_post_same'; [exact H|intros _; right; exact Hfree].
+    + unfold do_shrink. destruct (Z.eqb_spec (- a) 0); [lia|].
+      destruct (verify_shrink (sz s) x (- a)); cbn [fst snd]; [apply modify_post_same; [exact H|discriminate]|].
+      exists (shrink_loop (rel s) (glay s m) x (- a) false). split; [reflexivity|]. split; [intros _|intros C; congruence].
+      intros L. eapply ok_ext; [|apply (ok_all_unattached s x (sz s x + a) H Hfree L)].
+      intros t _. split; [|reflexivity]. apply shrink_loop_false_frame. intros fs E'. congruence.
+Qed.
+
+Lemma verify_groups_head : forall s u x a g r, verify_groups s u x a (g :: r) = None -> a < 0 ->
+  verify_shrink (sz s) x (- a) = None.
+Proof.
+  intros s u x a g r Hv Hneg. cbn [verify_groups] in Hv. destruct (Z.ltb_spec 0 a); [lia|].
+  destruct (verify_shrink (sz s) x (- a)); [discriminate|reflexivity].
+Qed.
+
+Lemma mux_modify_post : forall s u x a, InvA s -> 1 <= sz s x + a -> single_followers s x ->
+  (forall L, In x (lay s L) -> exists g, L = LG u g /\ forall gs, groups_of s u x = Some gs -> In g gs) ->
+  (forall gs, groups_of s u x = Some gs -> NoDup gs) ->
+  modify_post s x a (fst (mux_modify_size s u x a)) (snd (mux_modify_size s u x a)).
+Proof.
+  intros s u x a H Hnew Hsingle Hcont Hnd. unfold mux_modify_size.
+  destruct (Z.eqb_spec a 0) as [->|Ha]; [apply modify_post_same; [exact H|intros _; left; reflexivity]|].
+  destruct (negb (memb x (usigs s u))); [apply modify_post_same; [exact H|discriminate]|].
+  destruct (mux_verify_size s u x a) eqn:Ev; try (apply modify_post_same; [exact H|discriminate]).
+  destruct (groups_of s u x) as [gs|] eqn:Eg; [|apply modify_post_same; [exact H|discriminate]].
+  rewrite modify_groups_pos. cbn [fst snd].
+  destruct gs as [|g0 gr].
+  - cbn [mg_pos fst snd]. apply modify_post_same'; [exact H|]. intros _. right.
+    intros [L HL]. destruct (Hcont L HL) as [g [_ Hg]]. destruct (Hg [] eq_refl).
+  - assert (Hshrink : a < 0 -> verify_shrink (sz s) x (- a) = None).
+    { intros Hneg. unfold mux_verify_size in Ev. destruct (Z.eqb_spec a 0); [lia|].
+      destruct (negb (memb x (usigs s u))); [discriminate|]. rewrite Eg in Ev.
+      destruct (verify_groups s u x a (g0 :: gr)) eqn:Evg; [discriminate|].
+      eapply verify_groups_head; eauto. }
+    pose proof (mixed_loop s u x a H Ha Hnew Hsingle Hshrink (g0 :: gr) (rel s) [] (mixed_init s u x a H)
+                  (Hnd _ eq_refl) (fun g _ Hin => Hin)) as R.
+    destruct (mg_pos (sz s) (mux_gsize s u) (gget s u) x a (g0 :: gr) (rel s)) as [p' e]. cbn [fst snd].
+    destruct R as [R1 R2]. exists p'. split; [reflexivity|]. split.
+    + intros E. destruct e; [discriminate|]. specialize (R1 eq_refl). destruct R1 as (M1 & M2 & M3).
+      intros L. destruct (in_dec Nat.eq_dec x (lay s L)) as [Hin|Hn].
+      * destruct (Hcont L Hin) as [g [-> Hg]]. apply (M1 g); [|exact Hin].
+        rewrite app_nil_r. apply in_rev. rewrite rev_involutive. apply Hg. reflexivity.
+      * eapply ok_ext; [|apply (M2 L)].
+        -- intros t Ht. split; [reflexivity|]. apply upd_other. intros ->. contradiction.
+        -- intros [g [-> [_ Hx]]]. apply Hn. exact Hx.
+    + intros E. destruct e as [c|]; [|congruence]. destruct (R2 ltac:(discriminate)) as [Hpos [done' HM]].
+      intros L. eapply mixed_old with (p := p') (done := done'); eassumption.
+Qed.
+
+(* signal.modifySize under the link hypothesis *)
+Lemma sig_modify_post : forall s x a, InvA s -> 1 <= sz s x + a -> resize_ok s x ->
+  modify_post s x a (fst (sig_modify_size s x a)) (snd (sig_modify_size s x a)).
+Proof.
+  intros s x a H Hnew [(Ltop & Lgrp & Lnd) Hsingle]. unfold sig_modify_size.
+  destruct (pmux s x) as [u|] eqn:Epu.
+  - apply mux_modify_post; try assumption.
+    + intros L HL. destruct L as [m|u' g].
+      * destruct (Ltop m HL) as [C _]. congruence.
+      * destruct (Lgrp u' g HL) as (P & gs & Eg & Hg). assert (u' = u) by congruence. subst u'.
+        exists g. split; [reflexivity|]. intros gs' Eg'. assert (gs' = gs) by congruence. subst. exact Hg.
+    + intros gs Eg. eapply Lnd; eauto.
+  - destruct (pmsg s x) as [m|] eqn:Epm.
+    + apply msg_modify_post; try assumption. intros L HL. destruct L as [m'|u g].
+      * destruct (Ltop m' HL) as (_ & P & _). congruence.
+      * destruct (Lgrp u g HL) as (P & _). congruence.
+    + apply modify_post_same; [exact H|]. intros _. right. intros [L HL]. destruct L as [m|u g].
+      * destruct (Ltop m HL) as (_ & P & _). congruence.
+      * destruct (Lgrp u g HL) as (P & _). congruence.
+Qed.
+
+Lemma InvA_resized : forall s s' len',
+  InvA s ->
+  nsig s' = nsig s -> glsize s' = glsize s -> gbytes s' = gbytes s -> nmsg s' = nmsg s ->
+  glay s' = glay s -> ugroups s' = ugroups s ->
+  emax s' = emax s -> evals s' = evals s -> vpar s' = vpar s -> vidx s' = vidx s -> nval s' = nval s ->
+  (forall y, sz s' y = len' y) -> (forall u, mux_gsize s' u = mux_gsize s u) ->
+  ok_all s (rel s') len' -> (forall y, 1 <= len' y) ->
+  (forall y e, (y < nsig s)%nat -> kind s' y = KEnum e -> In y (erefs s' e)) ->
+  InvA s'.
+Proof.
+  intros s s' len' H En Els Egb Enm Egl Eug Emx Eev Evp Evi Env Hsz Hgs Hok Hpos Hrefs.
+  assert (Hlay : forall L, lay s' L = lay s L).
+  { intros [m|u g]; cbn [lay]; unfold gget; rewrite ?Egl, ?Eug; reflexivity. }
+  assert (Hlsz : forall L, lsz s' L = lsz s L).
+  { intros [m|u g]; cbn [lsz]; [rewrite Els; reflexivity|apply Hgs]. }
+  constructor.
+  - intros L. rewrite Hlay, Hlsz. eapply ok_ext; [|apply (Hok L)]. intros t _. split; [reflexivity|apply Hsz].
+  - intros m. rewrite Els, Egb. apply (a_lsize s H).
+  - intros L L' y. rewrite !Hlay. apply (a_excl s H).
+  - intros e. rewrite Emx. apply (a_emax s H).
+  - intros L y. rewrite Hlay, En. apply (a_alloc s H).
+  - intros u. rewrite En, Eug. apply (a_unalloc s H).
+  - intros m. rewrite Enm, Egl. apply (a_munalloc s H).
+  - intros y e. rewrite En. apply Hrefs.
+  - intros e v. rewrite Eev, Evp, Evi, Env, Emx. apply (a_vals s H).
+  - intros y. rewrite Hsz. apply Hpos.
+Qed.
+
+Lemma InvA_set_rel : forall s p, InvA s -> ok_all s p (sz s) -> InvA (set_rel s p).
+Proof.
+  intros s p H Hok. eapply (InvA_resized s _ (sz s) H); try reflexivity; try assumption.
+  - apply (a_size s H).
+  - apply (a_refs s H).
+Qed.
+
+Lemma inv_set_type : forall s x n, InvA s -> vsig s x = true -> resize_ok s x -> InvA (fst (step_set_type s x n)).
+Proof.
+  intros s x n H Hx Hr. unfold step_set_type. destruct (kind s x) as [old| |] eqn:Ek; try exact H.
+  destruct (Z.leb_spec n 0); [exact H|].
+  assert (Eold : sz s x = old) by (unfold sz; rewrite Ek; reflexivity).
+  pose proof (sig_modify_post s x (n - old) H ltac:(lia) Hr) as P.
+  destruct (sig_modify_size s x (n - old)) as [s1 r]. cbn [fst snd] in P.
+  destruct P as [p [-> [Pok Perr]]].
+  destruct r; cbn [fst].
+  - specialize (Pok eq_refl). replace (sz s x + (n - old)) with n in Pok by lia.
+    eapply (InvA_resized s _ (upd (sz s) x n) H); try reflexivity.
+    + intros y. unfold sz, esize. cbn. unfold upd. destruct (Nat.eqb_spec y x) as [->|NE]; reflexivity.
+    + intros u. unfold mux_gsize. cbn. unfold upd. destruct (Nat.eqb_spec u x) as [->|NE]; [rewrite Ek; reflexivity|reflexivity].
+    + exact Pok.
+    + intros y. unfold upd. destruct (Nat.eqb_spec y x); [lia|apply (a_size s H)].
+    + intros y e Hy. cbn. unfold upd. destruct (Nat.eqb_spec y x) as [->|NE]; [discriminate|apply (a_refs s H); exact Hy].
+  - apply InvA_set_rel; [exact H|apply Perr; discriminate].
+  - apply InvA_set_rel; [exact H|apply Perr; discriminate].
+Qed.
+
+Lemma inv_set_enum : forall s x e, InvA s -> vsig s x = true -> resize_ok s x -> InvA (fst (step_set_enum s x e)).
+Proof.
+  intros s x e H Hx Hr. unfold step_set_enum. destruct (kind s x) as [|old|] eqn:Ek; try exact H.
+  assert (Hnew : 1 <= sz s x + (esize s e - sz s x)).
+  { unfold esize. pose proof (esize_of_pos (emin s e) (emax s e) (a_emax s H e)). lia. }
+  pose proof (sig_modify_post s x (esize s e - sz s x) H Hnew Hr) as P.
+  destruct (sig_modify_size s x (esize s e - sz s x)) as [s1 r]. cbn [fst snd] in P.
+  destruct P as [p [-> [Pok Perr]]].
+  destruct r; cbn [fst].
+  - specialize (Pok eq_refl). replace (sz s x + (esize s e - sz s x)) with (esize s e) in Pok by lia.
+    eapply (InvA_resized s _ (upd (sz s) x (esize s e)) H); try reflexivity.
+    + intros y. unfold sz, esize. cbn. unfold upd. destruct (Nat.eqb_spec y x) as [->|NE]; reflexivity.
+    + intros u. unfold mux_gsize. cbn. unfold upd. destruct (Nat.eqb_spec u x) as [->|NE]; [rewrite Ek; reflexivity|reflexivity].
+    + exact Pok.
+    + intros y. unfold upd. destruct (Nat.eqb_spec y x); [|apply (a_size s H)].
+      unfold esize. apply esize_of_pos. apply (a_emax s H).
+    + intros y e' Hy. cbn. unfold upd at 1. destruct (Nat.eqb_spec y x) as [->|NE].
+      * intros E. inversion E; subst e'. rewrite upd_same. apply ladd_In. left; reflexivity.
+      * intros Hk. pose proof (a_refs s H y e' Hy Hk) as Hin.
+        unfold upd. destruct (Nat.eqb_spec e' e) as [->|NE'].
+        -- apply ladd_In. right. destruct (Nat.eqb_spec e old) as [->|]; [apply lrem_In; split; assumption|exact Hin].
+        -- destruct (Nat.eqb_spec e' old) as [->|]; [apply lrem_In; split; assumption|exact Hin].
+  - apply InvA_set_rel; [exact H|apply Perr; discriminate].
+  - apply InvA_set_rel; [exact H|apply Perr; discriminate].
 Qed.
